@@ -21,6 +21,7 @@ import (
 	"strings"
 	"sync"
 	"time"
+	"unicode/utf8"
 
 	"github.com/prometheus/client_golang/prometheus"
 	"github.com/robustirc/robustirc/internal/config"
@@ -705,13 +706,27 @@ func (i *IRCServer) send(reply *Replyctx, msg *irc.Message) *robust.Message {
 
 	reply.replyid++
 
+	data := msg.Bytes()
+	if len(data) >= 510 {
+		// Bytes() cuts the message off after 510 bytes, possibly in the
+		// middle of a multi-byte character. The JSON encoding would replace
+		// each stray byte with U+FFFD (3 bytes), so that clients end up with
+		// more than 510 bytes: drop the incomplete character.
+		for n := 0; n < utf8.UTFMax && len(data) > 0; n++ {
+			if r, size := utf8.DecodeLastRune(data); r != utf8.RuneError || size != 1 {
+				break
+			}
+			data = data[:len(data)-1]
+		}
+	}
+
 	robustmsg := &robust.Message{
 		// The IDs must be the same across servers.
 		Id: robust.Id{
 			Id:    reply.msgid,
 			Reply: reply.replyid,
 		},
-		Data:           string(msg.Bytes()),
+		Data:           string(data),
 		InterestingFor: make(map[uint64]bool),
 	}
 
